@@ -386,4 +386,257 @@ theorem rewriteA_one_hole (search : Loc) (repl : TNode) (m : TModule)
   · unfold rewriteA at hr; rw [hr] at h; cases h
   · exact h
 
+/-! ## one pair -/
+
+/-- the assignment `replacement_node.annotation = …`: nothing happens, or the annotation of ONE object `i` changes —
+    in the input tree and wherever that object sits in the output tree -/
+def AliasUpd (ms msw : MState) : Prop :=
+  msw = ms ∨ ∃ i w, msw = { ms with input := setAnnL i w ms.input, output := setAnnL i w ms.output }
+
+theorem replacementA_alias {ev : Bool} {wrap : Option String} {ms msw : MState} {p : Pair} {node : TNode}
+    (h : replacementA ev wrap ms p = .ok (node, msw)) : AliasUpd ms msw := by
+  unfold replacementA at h
+  split at h
+  · cases h
+  · split at h
+    · cases h; exact .inl rfl
+    · split at h
+      · cases h
+      · cases h; exact .inl rfl
+      · rename_i i w _
+        cases h; exact .inr ⟨i, w, rfl⟩
+
+/-- without a wrap template nothing is assigned -/
+theorem replacementA_no_wrap {ev : Bool} {ms msw : MState} {p : Pair} {node : TNode}
+    (h : replacementA ev none ms p = .ok (node, msw)) : msw = ms := by
+  unfold replacementA at h
+  split at h
+  · cases h
+  · simp only [] at h; cases h; rfl
+
+/-- under `--input-eval` the node is freshly built: assigning to its annotation is seen nowhere else -/
+theorem replacementA_eval {wrap : Option String} {ms msw : MState} {p : Pair} {node : TNode}
+    (h : replacementA true wrap ms p = .ok (node, msw)) : msw = ms := by
+  unfold replacementA at h
+  simp only [if_true] at h
+  cases he : evalNodeA p (stripSplit p.outputParam) with
+  | error e => rw [he] at h; cases h
+  | ok n0 =>
+    rw [he] at h
+    simp only [] at h
+    have hn : ∃ t lit, n0 = .stmt (.ann none none t lit none) := by
+      unfold evalNodeA at he
+      split at he
+      · cases he
+      · split at he
+        · cases he
+        · rename_i vs _
+          cases hl : it2literal vs with
+          | error e => rw [hl] at he; cases he
+          | ok lit => rw [hl] at he; cases he; exact ⟨_, lit, rfl⟩
+    obtain ⟨t, lit, rfl⟩ := hn
+    cases wrap with
+    | none => simp only [] at h; cases h; rfl
+    | some tm =>
+      simp only [wrapNodeA] at h
+      cases hf : formatWrap tm lit with
+      | error e => rw [hf] at h; cases h
+      | ok w => rw [hf] at h; simp only [Except.map, Option.map] at h; cases h; rfl
+
+theorem aliasUpd_phantom {ms msw : MState} (h : AliasUpd ms msw) : msw.phantom = ms.phantom := by
+  rcases h with h | ⟨i, w, h⟩ <;> rw [h]
+
+/-- **one pair:** a successful `stepPair` is: compute the replacement node (with the assignment to its annotation,
+    `AliasUpd`), then ONE hole in the output tree at a node that carries the search path; the input tree is only
+    touched by that assignment -/
+theorem stepPair_spec {ev : Bool} {wrap : Option String} {ms ms1 : MState} {p : Pair}
+    (h : stepPair ev wrap ms p = .ok ms1) :
+    ∃ node msw, replacementA ev wrap ms p = .ok (node, msw) ∧ AliasUpd ms msw ∧ ms1.input = msw.input ∧
+      (ms.phantom = true → ms1.phantom = true) ∧
+      (ms1.phantom = false → OneHoleT (SlotT (stripSplit p.outputParam) node) msw.output ms1.output) := by
+  unfold stepPair at h
+  cases hr : replacementA ev wrap ms p with
+  | error e => rw [hr] at h; cases h
+  | ok nm =>
+    obtain ⟨node, msw⟩ := nm
+    rw [hr] at h
+    simp only [] at h
+    have hal := replacementA_alias hr
+    cases he : (rewriteA (stripSplit p.outputParam) node msw.output).2.err with
+    | some e => rw [he] at h; cases h
+    | none =>
+      rw [he] at h
+      simp only [] at h
+      cases hrep : (rewriteA (stripSplit p.outputParam) node msw.output).2.replaced with
+      | false => simp [hrep] at h
+      | true =>
+        simp only [hrep, Bool.not_true, Bool.false_eq_true, if_false] at h
+        cases h
+        refine ⟨node, msw, rfl, hal, rfl, fun hp => ?_, fun hp => ?_⟩
+        · simp [aliasUpd_phantom hal, hp]
+        · simp only [Bool.or_eq_false_iff] at hp
+          exact rewriteA_one_hole _ node msw.output he hp.2 hrep
+
+/-! ## the loop -/
+
+/-- "every pair, in order, none skipped": the states between the pairs -/
+inductive Steps (ev : Bool) (wrap : Option String) : MState → List Pair → MState → Prop
+  | nil (ms : MState) : Steps ev wrap ms [] ms
+  | cons {ms ms1 ms' : MState} {p : Pair} {ps : List Pair} :
+      stepPair ev wrap ms p = .ok ms1 → Steps ev wrap ms1 ps ms' → Steps ev wrap ms (p :: ps) ms'
+
+theorem loopPairs_iff_steps (ev : Bool) (wrap : Option String) : ∀ (ps : List Pair) (ms ms' : MState),
+    loopPairs ev wrap ms ps = .ok ms' ↔ Steps ev wrap ms ps ms'
+  | [], ms, ms' => by
+    constructor
+    · intro h; unfold loopPairs at h; cases h; exact .nil ms
+    · intro h; cases h; rfl
+  | p :: ps, ms, ms' => by
+    constructor
+    · intro h
+      unfold loopPairs at h
+      cases hs : stepPair ev wrap ms p with
+      | error e => rw [hs] at h; cases h
+      | ok ms1 => rw [hs] at h; exact .cons hs ((loopPairs_iff_steps ev wrap ps ms1 ms').mp h)
+    · intro h
+      cases h with
+      | cons hs ht => unfold loopPairs; rw [hs]; exact (loopPairs_iff_steps ev wrap ps _ ms').mpr ht
+
+/-- the frame of a whole call: for every pair in turn — the assignment to the replacement's annotation (`AliasUpd`),
+    then ONE hole `SlotT` for that pair's path and node; everything else (attributes included) is carried over
+    literally from pair to pair -/
+inductive FrameChain (ev : Bool) (wrap : Option String) : MState → List Pair → MState → Prop
+  | nil (ms : MState) : FrameChain ev wrap ms [] ms
+  | cons {ms msw ms1 ms' : MState} {p : Pair} {ps : List Pair} {node : TNode} :
+      replacementA ev wrap ms p = .ok (node, msw) → AliasUpd ms msw →
+      OneHoleT (SlotT (stripSplit p.outputParam) node) msw.output ms1.output → ms1.input = msw.input →
+      FrameChain ev wrap ms1 ps ms' → FrameChain ev wrap ms (p :: ps) ms'
+
+theorem steps_phantom_mono {ev : Bool} {wrap : Option String} {ms ms' : MState} {ps : List Pair}
+    (h : Steps ev wrap ms ps ms') : ms.phantom = true → ms'.phantom = true := by
+  induction h with
+  | nil _ => exact id
+  | cons hs _ ih =>
+    obtain ⟨_, _, _, _, _, hm, _⟩ := stepPair_spec hs
+    exact fun hp => ih (hm hp)
+
+theorem steps_chain {ev : Bool} {wrap : Option String} {ms ms' : MState} {ps : List Pair}
+    (h : Steps ev wrap ms ps ms') (hp : ms'.phantom = false) : FrameChain ev wrap ms ps ms' := by
+  induction h with
+  | nil ms => exact .nil ms
+  | @cons ms ms1 ms' p ps hs ht ih =>
+    obtain ⟨node, msw, hr, hal, hin, _, hole⟩ := stepPair_spec hs
+    have hp1 : ms1.phantom = false := by
+      cases hq : ms1.phantom with
+      | false => rfl
+      | true => have := steps_phantom_mono ht hq; rw [this] at hp; cases hp
+    exact .cons hr hal (hole hp1) hin (ih hp)
+
+/-! ## erasing the attributes -/
+
+theorem eraseL_getElem? : ∀ (l : List TStmt) (j : Nat), (eraseL l)[j]? = (l[j]?).map eraseS
+  | [], j => by simp [eraseL]
+  | s :: ss, 0 => by simp [eraseL]
+  | s :: ss, j + 1 => by simp [eraseL, eraseL_getElem? ss j]
+
+theorem eraseL_length : ∀ l : List TStmt, (eraseL l).length = l.length
+  | [] => by simp [eraseL]
+  | s :: ss => by simp [eraseL, eraseL_length ss]
+
+theorem annotArgsA_erase (fnLoc : Loc) (pos : Option NodeId) (tag : Nat) : ∀ (l : List Arg) (i : Int) (j : Nat),
+    (annotArgsA fnLoc pos tag i j l).map TArg.erase = l
+  | [], _, _ => by simp [annotArgsA]
+  | x :: xs, i, j => by simp [annotArgsA, TArg.erase, annotArgsA_erase fnLoc pos tag xs]
+
+mutual
+/-- annotating and dropping the attributes again is the identity -/
+theorem eraseS_annotateS (parent : Option String) (pos : Option NodeId) : (s : Stmt) → eraseS (annotateS parent pos s) = s
+  | .fn a n g b d r => by
+    rw [annotateS, eraseS, eraseL_annotateL (some n) pos 0 b]
+    simp [annotArgs', TArgs.erase, annotArgsA_erase]
+  | .cls n bs ks b d => by rw [annotateS, eraseS, eraseL_annotateL (some n) pos 0 b]
+  | .ann t a v => by rw [annotateS, eraseS]
+  | .assign ts v => by rw [annotateS, eraseS]
+  | .strExpr s => by rw [annotateS, eraseS]
+  | .expr s => by rw [annotateS, eraseS]
+  | .other s => by rw [annotateS, eraseS]
+theorem eraseL_annotateL (parent : Option String) (pos : Option NodeId) (i : Nat) : (ss : List Stmt) →
+    eraseL (annotateL parent pos i ss) = ss
+  | [] => by rw [annotateL, eraseL]
+  | s :: ss => by rw [annotateL, eraseL, eraseS_annotateS parent _ s, eraseL_annotateL parent pos (i + 1) ss]
+end
+
+/-! ## how many top-level statements a call can change (no alias assignment: no template, or `--input-eval`) -/
+
+theorem steps_top_level {ev : Bool} {wrap : Option String} (hw : wrap = none ∨ ev = true) {ms ms' : MState} {ps : List Pair}
+    (h : Steps ev wrap ms ps ms') (hp : ms'.phantom = false) :
+    ms'.output.length = ms.output.length ∧
+    ∃ I : List Nat, I.length ≤ ps.length ∧ ∀ j : Nat, j ∉ I → ms'.output[j]? = ms.output[j]? := by
+  induction h with
+  | nil ms => exact ⟨rfl, [], Nat.le_refl _, fun _ _ => rfl⟩
+  | @cons ms ms1 ms' p ps hs ht ih =>
+    obtain ⟨node, msw, hr, _, _, _, hole⟩ := stepPair_spec hs
+    have hp1 : ms1.phantom = false := by
+      cases hq : ms1.phantom with
+      | false => rfl
+      | true => have := steps_phantom_mono ht hq; rw [this] at hp; cases hp
+    have hmsw : msw = ms := by
+      rcases hw with hw | hw
+      · subst hw; exact replacementA_no_wrap hr
+      · subst hw; exact replacementA_eval hr
+    have ho := hole hp1
+    rw [hmsw] at ho
+    obtain ⟨hl, I, hI, hrest⟩ := ih hp
+    obtain ⟨i, hi⟩ := ho.all_but_one
+    refine ⟨by rw [hl, ho.length_eq], i :: I, by simpa using hI, fun j hj => ?_⟩
+    simp only [List.mem_cons, not_or] at hj
+    rw [hrest j hj.2, hi j hj.1]
+
+/-! ## two pairs into one parameter list -/
+
+theorem findIdx?_set_irrelevant {α} (p : α → Bool) : ∀ (l : List α) (j : Nat) (r x : α),
+    l[j]? = some x → p x = false → p r = false → (l.set j r).findIdx? p = l.findIdx? p
+  | [], _, _, _, h, _, _ => by simp at h
+  | y :: ys, 0, r, x, h, hx, hr => by
+    simp only [List.getElem?_cons_zero, Option.some.injEq] at h
+    subst h
+    simp [List.findIdx?_cons, hx, hr]
+  | y :: ys, j + 1, r, x, h, hx, hr => by
+    simp only [List.getElem?_cons_succ] at h
+    simp only [List.set_cons_succ, List.findIdx?_cons]
+    rw [findIdx?_set_irrelevant p ys j r x h hx hr]
+
+theorem findIdx?_some_getElem {α} (p : α → Bool) : ∀ (l : List α) (j : Nat), l.findIdx? p = some j →
+    ∃ x, l[j]? = some x ∧ p x = true
+  | [], _, h => by simp at h
+  | y :: ys, j, h => by
+    rw [List.findIdx?_cons] at h
+    by_cases hy : p y = true
+    · simp only [hy, if_true, Option.some.injEq] at h
+      subst h; exact ⟨y, by simp, hy⟩
+    · cases hf : ys.findIdx? p with
+      | none => simp [hy, hf] at h
+      | some i =>
+        simp [hy, hf] at h
+        subst h
+        obtain ⟨x, hx, hpx⟩ := findIdx?_some_getElem p ys i hf
+        exact ⟨x, by simpa using hx, hpx⟩
+
+theorem replaceFirstA_findIdx (search : Loc) (r : TArg) : ∀ l : List TArg,
+    (replaceFirstA search r l).1 =
+      match l.findIdx? (fun x => x.loc == some search) with
+      | some j => l.set j r
+      | none => l
+  | [] => by simp [replaceFirstA]
+  | x :: xs => by
+    unfold replaceFirstA
+    rw [List.findIdx?_cons]
+    by_cases h : (x.loc == some search) = true
+    · simp [h]
+    · simp only [h]
+      rw [replaceFirstA_findIdx search r xs]
+      cases xs.findIdx? (fun x => x.loc == some search) with
+      | none => simp
+      | some j => simp
+
 end SyncProps
